@@ -326,9 +326,14 @@ fn set_pixel<COLOR: ColorType + PixelColor>(
     let (x, y) = match rotation {
         // as i32 = never use more than 2 billion pixel per line or per column
         DisplayRotation::Rotate0 => (point.x, point.y),
-        DisplayRotation::Rotate90 => (width as i32 - 1 - point.y, point.x),
-        DisplayRotation::Rotate180 => (width as i32 - 1 - point.x, height as i32 - 1 - point.y),
-        DisplayRotation::Rotate270 => (point.y, height as i32 - 1 - point.x),
+        // wrapping: a coordinate so far outside that the subtraction overflows wraps to a
+        // negative value and is rejected by the range check below instead of panicking
+        DisplayRotation::Rotate90 => ((width as i32 - 1).wrapping_sub(point.y), point.x),
+        DisplayRotation::Rotate180 => (
+            (width as i32 - 1).wrapping_sub(point.x),
+            (height as i32 - 1).wrapping_sub(point.y),
+        ),
+        DisplayRotation::Rotate270 => (point.y, (height as i32 - 1).wrapping_sub(point.x)),
     };
 
     // Out of range check
